@@ -236,10 +236,12 @@ pub fn eval(ctx: &Ctx, case: &Case) {
                 Guard::Done(d) if ref_point(&d) == pr.curve.neg(&r) => {}
                 other => ctx.violation("Point::neg", &format!("wrong-negation/{}", cls), format!("[{}]G Z={} -> {}", hexbig(&k), hexbig(&l), gp(&other)), cj()),
             }
-            // predicates
-            match guard(|| p.is_valid()) {
-                Guard::Done(true) => {}
-                other => ctx.violation("Point::is_valid", &format!("valid-point-rejected/{}", cls), format!("[{}]G Z={} -> {:?}", hexbig(&k), hexbig(&l), other), cj()),
+            // predicates (whether the point at infinity counts as "valid" is a convention, not judged)
+            if r.is_some() {
+                match guard(|| p.is_valid()) {
+                    Guard::Done(true) => {}
+                    other => ctx.violation("Point::is_valid", &format!("valid-point-rejected/{}", cls), format!("[{}]G Z={} -> {:?}", hexbig(&k), hexbig(&l), other), cj()),
+                }
             }
             if r.is_some() {
                 // affine conversion (finite points only)
